@@ -33,10 +33,11 @@ def main():
     ap.add_argument('--no-pytest', action='store_true')
     ap.add_argument('--tier', default='quick')
     ap.add_argument('--keep', action='store_true')
+    ap.add_argument('--name')
     a = ap.parse_args()
     pid = a.id
     src = a.src or '/tmp/seed/out/%s' % pid
-    name = os.path.basename(src.rstrip('/'))
+    name = a.name or os.path.basename(src.rstrip('/'))
     wt = '/tmp/seedrun/%s' % name
     os.makedirs('/tmp/seedrun', exist_ok=True)
     sh('git -C /repo worktree remove --force %s' % wt)
